@@ -5,6 +5,7 @@ import Driver.Small
 import Driver.RepoD
 import Driver.FilterD
 import Driver.C12
+import Driver.C14
 /-! `mlsmodel <mode>`: reads queries from stdin, prints one model answer per line. -/
 
 def splitWs (line : String) : List String :=
@@ -27,5 +28,6 @@ def main (args : List String) : IO UInt32 := do
   | ["small"] => loopS stdin stdout (fun (_ : Unit) ws => ((), Driver.Small.handle ws)) (); return 0
   | ["tree"] => loopS stdin stdout Driver.TreeD.step {}; return 0
   | ["c12"] => loopS stdin stdout (fun (_ : Unit) ws => ((), Driver.C12.handle ws)) (); return 0
+  | ["c14"] => loopS stdin stdout (fun (_ : Unit) ws => ((), Driver.C14.handle ws)) (); return 0
   | ["c13"] => loopS stdin stdout Driver.C13.step {}; return 0
   | _ => IO.eprintln "usage: mlsmodel <mode>"; return 2
